@@ -120,6 +120,16 @@ Theorem C09_delete_serialisable_against_commits :
 Proof. exact DeleteSerial.delete_with_commits_serial. Qed.
 Print Assumptions C09_delete_serialisable_against_commits.
 
+(* The complementary case: the captured end domain lies before the captured start domain (the range is contained in a
+   gap).  A delete that reports success then leaves the index exactly as the concurrent commits made it. *)
+Theorem C09_delete_in_gap_changes_nothing : forall ps2 sd s so a' ed e eo b' final,
+  DomainProofs.idx_ok ps2 -> In s ps2 -> In e ps2 -> Domain.p_start e < Domain.p_start s ->
+  Domain.delete_apply ps2 (Domain.repechage_start ps2 sd s) s so a' (Domain.repechage_end ps2 ed e) e eo b'
+    = (final, Domain.ROk) ->
+  final = ps2.
+Proof. exact DeleteSerial.delete_in_gap_noop. Qed.
+Print Assumptions C09_delete_in_gap_changes_nothing.
+
 (* Non-vacuity: two threads (a writer producing new domains on group 1; a thread deleting an
    older range of group 1 and creating/dropping a private channel) are cross-independent,
    have a non-trivial interleaving, and the run changes the store. *)
